@@ -553,8 +553,10 @@ impl ProcessorSetBuilder {
                         "we picked an existing key from an existing HashSet - the values must exist",
                     );
 
-                    // There might not be enough to fill the request, which is fine.
-                    let choose_count = count.min(processors_in_region.len());
+                    // There might not be enough to fill the request, which is fine. We only take
+                    // what is still missing - earlier regions may have supplied part of the request.
+                    let remaining_count = count.saturating_sub(processors.len());
+                    let choose_count = remaining_count.min(processors_in_region.len());
 
                     let region_processors = processors_in_region
                         .sample(&mut rng(), choose_count)
